@@ -399,6 +399,8 @@ extern Type *ty_float;
 extern Type *ty_double;
 extern Type *ty_ldouble;
 
+extern bool in_pp_const_expr;
+
 bool is_integer(Type *ty);
 bool is_flonum(Type *ty);
 bool has_ldouble(Type *ty);
